@@ -36,6 +36,9 @@ def run(ctx):
                 if rc == 0 and big:          # full-size dimensions: few samples (a row carries the whole mask)
                     out.write(open(part).read())
                     rc, err = table.run_harness(ctx, exe, ["ks", "--t", t, "--bb", bb, "--nin", "500", "--nout", "630", "--samples", 6, "--seed", ctx.seed + t * 41 + bb], part)
+                if rc == 0 and (1 << bb) <= 8 and t <= 15:          # a noisy key from the real generator: phase_out = phase_in - rounding - the noise of the rows actually used, exactly
+                    out.write(open(part).read())
+                    rc, err = table.run_harness(ctx, exe, ["ks", "--t", t, "--bb", bb, "--nin", "1,2,3", "--nout", "1,7", "--samples", 40 if thorough else 16, "--noiselog", 12 + (t + bb) % 9, "--seed", ctx.seed + t * 43 + bb], part)
                 if rc != 0:
                     ctx.violation("h_lwe ks (%d,%d) %s build died rc=%s %s" % (t, bb, kind, rc, err[-200:]), key="h_lwe ks crash (%d,%d) %s" % (t, bb, kind))
                     continue
